@@ -151,6 +151,8 @@ class Op(E):
         raise ValueError(o)
 
     def children(self):
+        if self.op == "rint":                  # the integrand has a bound variable: never share/abstract inside it
+            return [self.args[2], self.args[3]]
         return [x for x in self.args if isinstance(x, E)]
 
 
@@ -770,12 +772,13 @@ class Structured(object):
                     self.shared.append(n)
             elif n.op in ("PI", "var", "neg", "abs"):
                 continue
-            elif refs[id(n)] >= 2:
+            elif refs[id(n)] >= 2 or n.op == "rint":      # integrals are always enclosed once by integral_intro
                 self.shared.append(n)
         self.names = {}
         for i, n in enumerate(self.shared):
             self.names[id(n)] = "v%d" % (i + 1)
         self.has_rint = any(isinstance(n, Op) and n.op == "rint" for n in order)
+        self.rint_opts = {}
 
     def _body(self, n):
         """text of node n in terms of the names of *other* abstracted nodes"""
@@ -801,6 +804,10 @@ class Structured(object):
                 lo, hi = _round_dir(n.v, prec, -1), _round_dir(n.v, prec, +1)
                 L.append("assert (H%d : %s <= %s <= %s) by (unfold %s; split; [apply Ropp_le_cancel|]; interval with (i_prec %d))."
                          % (i + 1, Const(lo).coq(), v, Const(hi).coq(), v, prec + 8))
+            elif n.op == "rint":
+                L.append("integral_intro %s with (i_prec %d, i_fuel %d, i_degree %d, i_relwidth %d) as H%d; fold %s in H%d."
+                         % (self._body(n), prec, self.rint_opts.get("i_fuel", 200), self.rint_opts.get("i_degree", 12),
+                            max(8, prec - 20), i + 1, v, i + 1))
             else:
                 L.append("interval_intro %s with (i_prec %d) as H%d; fold %s in H%d." % (self._body(n), prec, i + 1, v, i + 1))
             L.append("clearbody %s." % v)
@@ -869,7 +876,8 @@ class Instance(object):
     def tactic_text(self, prec, which="goal"):
         o = self._obj(which)
         if isinstance(o, Structured):
-            return o.script(prec, self.final_tactic(prec))[:-1]
+            fin = self.final_tactic(prec) if (self.tactic or self.kind != "RI") else "interval with (i_prec %d)" % prec
+            return o.script(prec, fin)[:-1]
         if self.kind == "Z":
             return self.final_tactic(prec)
         return "repeat apply conj; " + self.final_tactic(prec)
@@ -905,6 +913,8 @@ def atoms_instance(id, atoms, neg_atom_lists=(), params=None, meta=None, trivial
         meta["estimate_error"] = str(ex)
     if kind is None:
         kind = "RI" if g.has_rint else "R"
+    for st in [g] + negs:
+        st.rint_opts = {k: P[k] for k in ("i_fuel", "i_degree") if k in P}
     return Instance(id, g, negs, kind=kind, prec=prec, hint=hint, meta=meta, trivial=trivial)
 
 
